@@ -725,6 +725,10 @@ def hay(s):
 
 def run_bare(rec, ep, s, nodes):
     txn, rows, vs = copy.deepcopy(TXN), copy.deepcopy(ROWS), dict(VARS)
+    if len(s) % 3 == 0:
+        # a stored transaction keeps the time of day its statement gave (the parsers keep datetime values): evaluation reads it, nothing more
+        txn['date'] = datetime.datetime(2025, 1, 15, 13, 45)
+        rec.count('evaluations_of_a_transaction_dated_with_time_of_day')
     tree_dump = None
     try:
         tree = ep.parse_expression(s)
@@ -803,6 +807,8 @@ def run_file_contexts(rec, ep, s, rnd):
     else:
         text = 'field.description = %s\nfield.memo = %s\n[P]\nmatch: contains("NETFLIX")\ncategory: C\ntags: {field.memo}\n\n' % (s, s) + base
     txn, rows = copy.deepcopy(TXN), copy.deepcopy(ROWS)
+    if len(s) % 3 == 1:
+        txn['date'] = datetime.datetime(2025, 1, 15, 13, 45)
     seen = {}
 
     def go():
@@ -953,6 +959,7 @@ def run(rec, shard, nshards, t):
             rec.sample(s)
         generator_tag_probe(rec, ep)
         loader_rows_probe(rec, ep)
+        engine_state_probe(rec, ep)
         if t != 'quick':
             core.repo_tests_with_monitors(rec, 'C03')
     for k, v in nodes.items():
@@ -1015,6 +1022,41 @@ def loader_rows_probe(rec, ep):
                               {'kind': 'loader-rows'})
 
 
+STATE_EXPRS = ['Amount > 500', 'Contains("COFFEE")', 'Extract("REF:(\\\\d+)")', 'Field.memo', 'DESCRIPTION', 'Month', 'len(Rows)', 'Txn.source', 'amount > 500', 'Source == "Amex"',
+               'Trim(Field.code)', 'Year * 100 + Month', '"%s|%s" % (Description, Amount)']
+
+
+def engine_state_probe(rec, ep):
+    """What an expression reads is THIS transaction: one engine matching several transactions one after the other gives each the answer a
+    fresh engine gives it alone - however the names in a top-level variable are spelled."""
+    from tally.merchant_engine import parse_merchants
+    txns = [dict(copy.deepcopy(TXN), description='COFFEE BAR REF:11', amount=900.0, field={'memo': 'first', 'code': ' a1 '}, source='Amex', date=datetime.date(2025, 1, 15)),
+            dict(copy.deepcopy(TXN), description='TEA HOUSE REF:22', amount=5.0, field={'memo': 'second', 'code': 'b2'}, source='Chase', date=datetime.date(2024, 7, 4)),
+            dict(copy.deepcopy(TXN), description='COFFEE BAR', amount=501.0, field={'memo': 'third', 'code': ''}, source='amex', date=datetime.date(2025, 12, 31))]
+    rowsets = [copy.deepcopy(ROWS), {'rows': [], 'orders': []}, copy.deepcopy(ROWS)]
+    for e in STATE_EXPRS:
+        text = 'v = %s\n\n[R]\nmatch: true\ncategory: C\ntags: {v}\nfield: out = v\n' % e
+        for order in ((0, 1, 2), (1, 2, 0), (2, 1, 0)):
+            try:
+                eng = parse_merchants(text)
+            except Exception:
+                break
+            for i in order:
+                def surf(engine):
+                    try:
+                        r = engine.match(copy.deepcopy(txns[i]), data_sources=copy.deepcopy(rowsets[i]))
+                        return repr((sorted(r.tags), sorted((k, repr(v)) for k, v in r.extra_fields.items())))
+                    except Exception as ex:
+                        return 'raises ' + type(ex).__name__
+                got, want = surf(eng), surf(parse_merchants(text))
+                rec.case()
+                rec.count('engine_state_probes')
+                if got != want:
+                    rec.violation('value-carried-over-from-an-earlier-transaction', f'variable `v = {e}`: transaction {i} matched after {order[:order.index(i)]} on the same engine '
+                                  f'gives {got[:160]}, a fresh engine gives {want[:160]}', {'kind': 'engine-state'})
+                    break
+
+
 def generator_tag_probe(rec, ep):
     """A generator expression used as a tag / field / transform value must not leak its repr into user-visible output."""
     from tally.merchant_engine import parse_merchants
@@ -1041,6 +1083,9 @@ def replay(rec, case):
         return
     if case.get('kind') == 'loader-rows':
         loader_rows_probe(rec, ep)
+        return
+    if case.get('kind') == 'engine-state':
+        engine_state_probe(rec, ep)
         return
     rnd = core.rng_for('C03', 'replay')
     s = case['s']
